@@ -24,7 +24,51 @@ def gen_C05(rng, tier):
     return [G.weighted_history(rng, rng.choice(['DW', 'UW']), maxops=30 if tier == 'quick' else 45) for _ in range(n)]
 MW_IMPORTS = 'Base DirectedModel DirectedSpec UndirectedModel UndirectedSpec MultiModel WeightedModel MultiSpec Instances'
 
+def _shuffled_adds(rng, cls, lk, n, pairs, fmt):
+    ps = list(pairs); rng.shuffle(ps)
+    return '%s %s %d : %s' % (cls, lk, n, ' ; '.join(fmt(rng, i, j) for i, j in ps))
+def gen_C08(rng, tier):
+    import itertools
+    out = []
+    nmax = 3 if tier == 'quick' else 4
+    fmtD = lambda r, i, j: 'A %d %d %d 0' % (i, j, r.randint(0, 3))
+    # every directed graph on <= nmax vertices (sampled at nmax = 4), every undirected one, in a random insertion order
+    for n in range(0, nmax + 1):
+        allp = [(i, j) for i in range(n) for j in range(n)]
+        subsets = range(1 << len(allp)) if len(allp) <= 9 else [rng.getrandbits(len(allp)) for _ in range(3000)]
+        for m in subsets:
+            ps = [p for k, p in enumerate(allp) if m >> k & 1]
+            out.append(_shuffled_adds(rng, 'D', rng.choice(['none', 'int']), n, ps, fmtD))
+        up = [(i, j) for i in range(n) for j in range(i, n)]
+        for m in range(1 << len(up)):
+            ps = [(p if rng.random() < 0.5 else (p[1], p[0])) for k, p in enumerate(up) if m >> k & 1]
+            out.append(_shuffled_adds(rng, 'U', rng.choice(['none', 'int']), n, ps, fmtD))
+            if n <= 3 or rng.random() < 0.2:
+                out.append(_shuffled_adds(rng, 'UM', 'mult', n, ps, lambda r, i, j: 'MA %d %d %d 0' % (i, j, r.randint(1, 3))))
+                out.append(_shuffled_adds(rng, 'UW', 'dbl', n, ps, lambda r, i, j: 'WA %d %d %d 0' % (i, j, r.choice([-3, 0, 2, 5]))))
+    for n in range(0, 3):
+        allp = [(i, j) for i in range(n) for j in range(n)]
+        for m in range(1 << len(allp)):
+            ps = [p for k, p in enumerate(allp) if m >> k & 1]
+            out.append(_shuffled_adds(rng, 'DM', 'mult', n, ps, lambda r, i, j: 'MA %d %d %d 0' % (i, j, r.randint(1, 3))))
+            out.append(_shuffled_adds(rng, 'DW', 'dbl', n, ps, lambda r, i, j: 'WA %d %d %d 0' % (i, j, r.choice([-3, 0, 2, 5]))))
+    # histories with removals (isolated first/last vertices, emptied graphs), forced duplicates included for D and U
+    k = 300 if tier == 'quick' else 4000
+    out += G.histories(rng, k, ['D', 'U'], ['none', 'int'], maxops=25, reject_p=0.0, force_p=0.15, dd_p=0.03, sizes=(0, 1, 2, 3, 4, 5, 6))
+    out += [G.multi_history(rng, rng.choice(['DM', 'UM']), maxops=20, sizes=(0, 1, 2, 3, 4, 5, 6)) for _ in range(k // 2)]
+    out += [G.weighted_history(rng, rng.choice(['DW', 'UW']), maxops=20, sizes=(0, 1, 2, 3, 4, 5, 6)) for _ in range(k // 2)]
+    return out
+def coq_term_any(case):
+    return G.coq_term_history(case) if case.split()[0] in ('D', 'U') else G.coq_term_mw(case)
+
 PROPS = {
+ 'C08': dict(harness=['classes', 'multi'], gen=gen_C08, coq_term=coq_term_any, histogram=G.op_histogram, coq_imports=MW_IMPORTS,
+             segments={'D': [0, 6, 7, 8, 9], 'U': [0, 6, 7, 8, 9], 'DM': [0, 5, 6, 7, 8], 'UM': [0, 5, 6, 7, 8], 'DW': [0, 5, 6, 7, 8, 9], 'UW': [0, 5, 6, 7, 8, 9]},
+             nontrivial=_steps_with_edges, model_name='DirectedModel.iterate / UndirectedModel.u_iterate (cursor model) and the observers built on them', shrink=None,
+             rule='every directed graph on <=3 (thorough: all on <=3, 3000 sampled on 4) vertices and every undirected graph on <=3 (<=4) vertices, edges inserted in a random order, '
+                  'for the labelled/unlabelled, multigraph and weighted classes, plus random histories with removals and forced duplicates (sizes 0-6); after every call: '
+                  'the vertex sequence of range-for, the multiset yielded by edges(), pre- vs post-increment traversal, a second traversal, begin()==end(), and the users '
+                  '(degrees, matrices) are compared with the cursor model and the spec; non-trivial = reaches a state with >=1 edge'),
  'C04': dict(harness='multi', gen=gen_C04, coq_term=G.coq_term_mw, histogram=G.op_histogram, coq_imports=MW_IMPORTS,
              nontrivial=_steps_with_edges, model_name='MultiModel.dm_step/um_step',
              rule='seeded random histories on DirectedMultigraph / UndirectedMultigraph (force off): addEdge, addMultiedge, reciprocal variants, removeEdge, removeMultiedge, '
@@ -53,9 +97,14 @@ def replay(path):
     print(json.dumps({k: rp[k] for k in rp if k in ('property', 'kind', 'what', 'case')}, indent=1))
     if 'case' not in rp: return 0
     import runner
-    exe, cerr, _ = build_harness(P['harness'], os.path.join(BUILD, pid), flags=P.get('flags'))
-    if exe is None: print('harness does not compile:', cerr); return 1
-    S = runner.Session(P, pid, exe)
+    hnames = P['harness'] if isinstance(P['harness'], list) else [P['harness']]
+    exes = {}
+    for h in hnames:
+        if len(hnames) > 1 and runner.default_route(rp['case']) != h: continue
+        exe, cerr, _ = build_harness(h, os.path.join(BUILD, pid), flags=P.get('flags'))
+        if exe is None: print('harness does not compile:', cerr); return 1
+        exes[h] = exe
+    S = runner.Session(P, pid, exes)
     impl, ms, aborts, verdicts, _ = S.evaluate([rp['case']])
     c = rp['case']
     Il, M, Sp = triples(c, impl.get(c, []), ms.get(c, []))
